@@ -51,6 +51,12 @@ def geometry(draw, method):
         x0 = draw(st.sampled_from([0.0, 5.0, 20.0]))
         y0 = draw(st.sampled_from([0.0, 5.0, 20.0]))
         poly = draw(gg.simple_polygon(x0, y0, w, h, kinds=("convex", "rect", "star")))
+        if gg.is_convex_float(poly):
+            # design-level scenarios need a lot that admits several rows in both directions (slivers are exercised by C04):
+            # the hull always contains the central 60 % of the box
+            core = [(x0 + a * w, y0 + b * h) for a, b in ((0.2, 0.2), (0.8, 0.2), (0.8, 0.8), (0.2, 0.8))]
+            hull = [list(p) for p in gg.hull([tuple(v) for v in poly] + core)]
+            poly = hull[::-1] if draw(st.booleans()) else hull
         ngs = []
         if draw(st.booleans()):
             ngs.append(draw(gg.simple_polygon(x0 + w * 0.35, y0 + h * 0.35, w * 0.25, h * 0.25, kinds=("convex", "rect"))))
@@ -322,8 +328,13 @@ def loads_for(scn):
     spec = {k: v for k, v in scn["loads"].items() if k != "calib"}
     base = gl.expand(spec)
     cal = scn["loads"].get("calib")
+    fields = []
     if cal:
-        fields = candidate_fields(scn)
+        try:
+            fields = candidate_fields(scn)
+        except ValueError:
+            fields = []  # the API rejects this land/spacing combination; find_design will report that itself
+    if cal and fields:
         idx = int(round(cal["frac_n"] * (len(fields) - 1)))
         coords = fields[idx]
         h = scn["hmin"] + cal["frac_h"] * (scn["hmax"] - scn["hmin"])
